@@ -219,7 +219,7 @@ def _respell_objects(rng, v):
     """same parameter object, other spelling of its definition: ignored `verbose` added/changed, default-valued `b` spelled out or omitted"""
     if isinstance(v, dict) and 'class' in v:
         kw = {k: _respell_objects(rng, x) for k, x in v.get('kwargs', {}).items()}
-        if v['class'].endswith('.LabObj'):
+        if v['class'].endswith(('.LabObj', '.LabObjSub')):
             if rng.random() < 0.5:
                 kw['verbose'] = not kw.get('verbose', False)
             if 'b' not in kw and rng.random() < 0.5:
